@@ -372,6 +372,8 @@ STD = dict(int=IntShim, bytes=BytesShim)
 
 # --------------------------------------------------------------------------------------------- source-level rewriting
 import ast as _ast
+import builtins as _builtins
+import re as _re
 import inspect as _inspect
 import textwrap as _textwrap
 
@@ -398,7 +400,124 @@ def symx_join(sep, items):
     return out.lower_if_concrete()
 
 
+def hex_digits(x):
+    """lower-case hex digits of a non-negative SInt without leading zeros; forks on the number of digits"""
+    from .core import SHexStr
+    if isinstance(x, int):
+        return '%x' % x
+    if x.lo < 0 and not (x >= 0):
+        raise core.EngineLimit("hex rendering of a negative symbolic int")
+    lo, n = 1, max(1, (max(x.hi, 1).bit_length() + 3) // 4)
+    while lo < n:                                   # binary search: log2(#digits) decisions per path
+        mid = (lo + n) // 2
+        if x < (1 << (4 * mid)):
+            n = mid
+        else:
+            lo = mid + 1
+    nb = (n + 1) // 2
+    h = x.to_bytes(nb, 'big').hex()
+    return h if n % 2 == 0 else core.SStr(h.c[1:])
+
+
+class _Hex0x(SStr):
+    """'0x' + digits: the usual hex(x)[2:] gives the structured digit string back"""
+
+    def __init__(self, digits):
+        self.digits = digits
+
+    c = property(lambda self: [48, 120] + list(self.digits.c))
+
+    def __getitem__(self, i):
+        if isinstance(i, slice) and i.start == 2 and i.stop is None and i.step is None:
+            return self.digits
+        return SStr.__getitem__(self, i)
+
+
+class SHexLazy(SStr):
+    """hex digits of a non-negative SInt whose count is decided (forked on) only when something looks at it:
+    zero-filling to a width that always fits needs no fork at all"""
+
+    def __init__(self, x):
+        self.x, self._f = x, None
+
+    def force(self):
+        if self._f is None:
+            self._f = SStr.lift(hex_digits(self.x))
+        return self._f
+
+    c = property(lambda self: self.force().c)
+
+    def zfill(self, m):
+        if m % 2 == 0 and self.x.lo >= 0 and self.x.hi < (1 << (4 * m)):
+            return self.x.to_bytes(m // 2, 'big').hex()
+        return self.force().zfill(m)
+
+    def __add__(self, o):
+        return self.force() + o
+
+    def __radd__(self, o):
+        return o + self.force()
+
+    def upper(self):
+        return self.force().upper()
+
+
+def hex_shim(x):
+    if isinstance(x, core.SInt):
+        return _Hex0x(SHexLazy(x))
+    return _builtins.hex(x)
+
+
+_FMT = _re.compile(r'%(?P<flags>[-#0 +]*)(?P<width>\d+)?(?:\.(?P<prec>\d+))?(?P<type>[sdxXr%])')
+
+
+def symx_mod(fmt, args):
+    """<literal> % args that keeps proxies (%s / %d / %x with optional zero-padding width)"""
+    tup = args if isinstance(args, tuple) else (args,)
+    if not any(isinstance(a, (core.SInt, core.SStr, core.SBytes, core.SChar)) for a in tup):
+        return fmt % args
+    out, pos, k = core.SStr([]), 0, 0
+    for m in _FMT.finditer(fmt):
+        out = out + fmt[pos:m.start()]
+        pos = m.end()
+        if m.group('type') == '%':
+            out = out + '%'
+            continue
+        a = tup[k]
+        k += 1
+        t, flags, width = m.group('type'), m.group('flags') or '', int(m.group('width') or 0)
+        if not isinstance(a, (core.SInt, core.SStr, core.SChar)):
+            out = out + (('%' + flags + (m.group('width') or '') + t) % (a,))
+            continue
+        if m.group('prec') or flags.strip('0'):
+            raise core.EngineLimit("format spec %r on a symbolic value" % m.group(0))
+        if isinstance(a, core.SInt) and t in 'xX':
+            r = SHexLazy(a)
+            if width and '0' in flags:
+                r, width = r.zfill(width), 0
+            r = r.upper() if t == 'X' else r
+        elif isinstance(a, core.SInt) and t in 'sd':
+            raise core.EngineLimit("decimal rendering of a symbolic int in a format string")
+        elif isinstance(a, (core.SStr, core.SChar)) and t == 's':
+            r = core.SStr.lift(a)
+        else:
+            raise core.EngineLimit("format spec %r on %s" % (m.group(0), type(a).__name__))
+        if width > len(r):
+            r = (('0' if '0' in flags and t != 's' else ' ') * (width - len(r))) + r
+        out = out + r
+    out = out + fmt[pos:]
+    if '%' in fmt[pos:].replace('%%', ''):
+        raise core.EngineLimit("unparsed format string %r" % fmt)
+    return out.lower_if_concrete()
+
+
 class _JoinRewriter(_ast.NodeTransformer):
+    def visit_BinOp(self, node):
+        self.generic_visit(node)
+        if isinstance(node.op, _ast.Mod) and isinstance(node.left, _ast.Constant) and isinstance(node.left.value, str):
+            return _ast.copy_location(_ast.Call(func=_ast.Name(id='__symx_mod', ctx=_ast.Load()), args=[node.left, node.right], keywords=[]), node)
+        return node
+
     def visit_Call(self, node):
         self.generic_visit(node)
         f = node.func
@@ -413,12 +532,13 @@ def rewrite_function(owner, name):
     proxy-aware join (the C-level join cannot take proxies).  The replacement is installed like any other shim and is
     undone by uninstall_all()/unshimmed()."""
     raw = owner.__dict__[name] if isinstance(owner, type) else getattr(owner, name)
-    fn = raw.__func__ if isinstance(raw, (classmethod, staticmethod)) else raw
+    fn = raw.__func__ if isinstance(raw, (classmethod, staticmethod)) else (raw.fget if isinstance(raw, property) else raw)
     src = _textwrap.dedent(_inspect.getsource(fn))
     tree = _JoinRewriter().visit(_ast.parse(src))
     _ast.fix_missing_locations(tree)
     ns = fn.__globals__
     ns['__symx_join'] = symx_join
+    ns['__symx_mod'] = symx_mod
     loc = {}
     exec(compile(tree, _inspect.getsourcefile(fn) or '<rewritten>', 'exec'), ns, loc)
     new = loc[fn.__name__]
